@@ -47,7 +47,8 @@ Lemma op_checksig_schnorr_ext s : op_checksig_schnorr so1 s = op_checksig_schnor
 Proof.
   destruct E as (_ & _ & E3 & E4). unfold op_checksig_schnorr. destruct s as [|pk [|sg r]]; try reflexivity.
   rewrite E3. destruct (negb (so_xonly_ok so2 pk)); [reflexivity|].
-  destruct sg; [reflexivity|]. destruct (schnorr_split _) as [sg' ht]. now rewrite E4.
+  destruct sg as [|x0 sg]; [reflexivity|]. destruct (negb (schnorr_form_ok (x0 :: sg))); [reflexivity|].
+  destruct (schnorr_split _) as [sg' ht]. now rewrite E4.
 Qed.
 
 Lemma op_checksigverify_schnorr_ext s :
@@ -59,7 +60,8 @@ Proof.
   destruct E as (_ & _ & E3 & E4). unfold op_checksigadd_schnorr.
   destruct s as [|pk [|en [|sg r]]]; try reflexivity.
   rewrite E3. destruct (negb (so_xonly_ok so2 pk)); [reflexivity|].
-  destruct sg; [reflexivity|]. destruct (schnorr_split _) as [sg' ht]. now rewrite E4.
+  destruct sg as [|x0 sg]; [reflexivity|]. destruct (negb (schnorr_form_ok (x0 :: sg))); [reflexivity|].
+  destruct (schnorr_split _) as [sg' ht]. now rewrite E4.
 Qed.
 
 Variable C : curve.
